@@ -171,6 +171,7 @@ func (d *DeadlineChan[T]) Recv() (b T, err error) {
 			return
 		}
 	}
+	verifhook.Yield("common.DeadlineChan.Recv:woken")
 	// Canceled, closed or timed out. Buffered data still comes first: when both
 	// the deadline channel and the queue are ready, select picks at random.
 	// The error is read before the last look at the queue: a call woken by a
